@@ -82,7 +82,11 @@ Expect ==
                  post |-> [k \in KS |-> IF st[k] \in {"err", "wrong"} THEN "old" ELSE "new"]]
 
 \* ---- enumeration
-DefaultLong == {<<1, 3, 2, 4, 1>>, <<3, 1, 3, 2, 4>>, <<1, 2, 3, 4>>, <<4, 3, 1>>}
+\* keys 1 and 2 share a slot, i.e. one connection of the single client's multiplexer and one node of the cluster: a repeated
+\* key FOLLOWED by a new key of the same slot, two different repeated keys, a key three times - the shapes in which a joined
+\* client-side-caching flight sits between genuinely new ones inside one DoMultiCache of one connection
+DefaultLong == {<<1, 3, 2, 4, 1>>, <<3, 1, 3, 2, 4>>, <<1, 2, 3, 4>>, <<4, 3, 1>>,
+                <<1, 1, 2>>, <<2, 2, 1, 3>>, <<1, 2, 1, 2>>, <<1, 1, 1, 2>>, <<2, 1, 1, 2, 4>>}
 Seqs == UNION {[1..n -> Keys] : n \in 1..MaxLen} \cup LongSeqs
 \* key lists of the writing helpers are maps: one canonical (increasing) list per key set
 Canon(s) == \A i \in 1..(Len(s) - 1) : s[i] < s[i + 1]
